@@ -2,6 +2,12 @@
 # Regenerates MANIFEST.json from the table below (kept in one place so it is always valid).
 import json
 CLAIMED = {
+ "C02": dict(text="Bounded symbolic model checking of the real routing code: (O-0) lineIntersects is proved equal to an exact closed-segment/half-open-box oracle for all integer coordinates |c|<=2^60 (unbounded-integer SMT, 128-bit arithmetic of the kernel modelled exactly); (O-1) children extents tile the parent at its centre for every level pair, pixel size and address; (O-2) one quadtree descent step from an arbitrary parent with arbitrary occupancy and arbitrary segment returns exactly the occupied children met, in order of travel. With the paper induction over levels (DESIGN.md) this gives the routing statement for every depth. Recorded F1 witnesses are re-run natively on every run.",
+             note="Trusted: go/ssa, my SSA->SMT translation (replay + shadow validation), Z3; induction over quadtree levels is a paper argument; O-2 runs with lineIntersects replaced by its oracle, justified by O-0 in the same run. Internal-tier harnesses (unexported functions): skipped and reported if they stop type-checking.",
+             design="4 C02", technique="symbolic execution of go/ssa to SMT-LIB2 (nonlinear integer arithmetic), Z3; native replay"),
+ "C09": dict(text="Bounded symbolic model checking of InsertPoint/InsertCoord: for every accepted built-in tile matrix set x tile matrix id (quick: ids 0, mid, max) and for synthetic grids with zero/negative/fractional/large origins, for every integer point outside the grid (any distance, |c|<2^61) or within 2-3 pixels of a border inside it: accepted <=> inside the half-open pixel grid, accepted => inside the extent, rejection is an OutsideGridError.",
+             note="Trusted: go/ssa, translation, Z3. The float->int step of FromGeomOrd is abstracted in these obligations (quantified over its integer result). Tile matrix set literals are generated natively from the current tree's embedded JSON.",
+             design="4 C09", technique="symbolic execution of go/ssa to SMT-LIB2 (linear integer arithmetic with division by constants), Z3; native replay"),
  "C17": dict(text="Bounded symbolic model checking that is exhaustive here: morton.ToZ/FromZ/MustToZ are executed symbolically from go/ssa in 64-bit bit-vector semantics with fully symbolic inputs; loops have constant trip counts, so the seven obligations (round trip, injectivity, onto, ok flag, MustToZ panic, parent, k-level ancestor) are decided by Z3 for all 2^128 input pairs.",
              note="Trusted: go/ssa construction, my SSA->SMT-LIB translation (validated by native replay of every counterexample and by the mutation runs in DESIGN.md), Z3 5.1.0. uint = 64 bit.",
              design="4 C17", technique="symbolic execution of go/ssa to SMT-LIB2 bit-vectors, Z3"),
@@ -11,7 +17,7 @@ NOT_APPLICABLE = {
  "C13": "whole-program behaviour through urfave/cli, os, the file system and cgo SQLite; not encodable",
  "C16": "reflection-driven JSON decoding/encoding (encoding/json, marshmallow, validator, defaults, regexp); no symbolic model of reflect within reach",
 }
-PENDING = ["C01","C02","C03","C04","C05","C06","C07","C08","C09","C10","C11","C14","C15","C18"]
+PENDING = ["C01","C03","C04","C05","C06","C07","C08","C09","C10","C11","C14","C15","C18"]
 checks=[]
 for pid,c in sorted(CLAIMED.items()):
     checks.append({
